@@ -256,7 +256,15 @@ impl<'a> GeneratorState<'a> {
                             } else {
                                 dasm_operand = variable.to_string();
                             }
-                            if v.memory == VariableMemory::Zeropage {
+                            // The offset may push an access based on a constant zeropage
+                            // address beyond page zero: the assembler then uses absolute mode
+                            let beyond_zeropage = match &v.def {
+                                VariableDefinition::Value(VariableValue::Int(a)) => {
+                                    v.var_const && a + off > 0xff
+                                }
+                                _ => false,
+                            };
+                            if v.memory == VariableMemory::Zeropage && !beyond_zeropage {
                                 cycles += 1;
                                 nb_bytes = 2;
                             } else {
